@@ -18,7 +18,7 @@ Not decided: exactly-once / ordering over arbitrary block streams; compressed-si
 import re
 
 from facts import short_name
-from kinds import (ordered, comparisons, k1_callers, on_all_success_paths, bool_payload_edges, result_blocks,
+from kinds import (exhaustive_loops, ordered, comparisons, k1_callers, on_all_success_paths, bool_payload_edges, result_blocks,
                    error_cut)
 
 CRATES = ["astria_sequencer_relayer.lib", "astria_conductor.lib", "astria_core.lib"]
@@ -199,6 +199,11 @@ def t3(prog, rep):
     rep.check(bool(ns) and bool(inc) and body.root(ns[0].args[0]) == body.root(inc[0].args[1]), "T3",
               "namespace-of-own-id", "rollup data is filed under a namespace derived from another id",
               body.describe())
+    exhaustive_loops(rep, "T3", body, r"split_for_celestia\(block\)", 1, "the block's rollup data",
+                     "the remaining rollups' data would silently be left out of the submission")
+    pb = prog.main_body(CV + "Input::try_into_payload")
+    exhaustive_loops(rep, "T3", pb, r"rollup_data_for_namespace", 1, "accumulated rollup data",
+                     "the payload would be reported complete without some namespaces", ok_only=True)
     sp = body.calls_to("astria_core::sequencerblock::v1::block::SequencerBlock::split_for_celestia")
     rep.check(len(sp) == 1 and body.root(sp[0].args[0]) == "block", "T3", "split-this-block",
               "extend_from_sequencer_block does not split the block it was given", body.describe())
